@@ -25,15 +25,20 @@ type Parked struct {
 // goroutine runs at any time and a (scenario, seed) pair is a deterministic
 // schedule at critical-section granularity.
 type Sched struct {
-	arrive  chan *Parked
-	Waiting []*Parked
-	Pass    map[string]bool // sites that never park (external API calls made by the harness)
-	Rng     *rand.Rand
-	Free    bool // free-running: never park
-	UseExt  bool // Settle with the extended quiescence detector (mutex waits count as settled)
-	armMu   sync.Mutex
-	armOp   string // "" | "send" | "close": the next channel operation of that kind (not on the root goroutine) parks inside the operation
-	RootGid int64
+	// Hold is a goroutine parked inside a channel operation that the scenario keeps there across steps (HoldOp /
+	// Unhold): random releases and drains pass it over, and quiescence is the extended one while it is held.
+	Hold     *Parked
+	holdExt  bool
+	holdSite string
+	arrive   chan *Parked
+	Waiting  []*Parked
+	Pass     map[string]bool // sites that never park (external API calls made by the harness)
+	Rng      *rand.Rand
+	Free     bool // free-running: never park
+	UseExt   bool // Settle with the extended quiescence detector (mutex waits count as settled)
+	armMu    sync.Mutex
+	armOp    string // "" | "send" | "close": the next channel operation of that kind (not on the root goroutine) parks inside the operation
+	RootGid  int64
 	// counters
 	Probes     int
 	Releases   int
@@ -109,7 +114,7 @@ func (s *Sched) SettleExt() {
 	for {
 		select {
 		case p := <-s.arrive:
-			s.Waiting = append(s.Waiting, p)
+			s.collect(p)
 		default:
 			return
 		}
@@ -210,7 +215,7 @@ func (s *Sched) Probe(kind string, extra []func()) bool {
 // Settle waits until every goroutine of the bubble is durably blocked and
 // collects the goroutines that have parked meanwhile.
 func (s *Sched) Settle() {
-	if s.UseExt {
+	if s.UseExt || s.holdSite != "" {
 		// a goroutine may legitimately wait for a mutex whose holder is durably blocked (a Client sending on an
 		// unbuffered channel.Direct while the receiving reader is parked at a gate): use the extended detector
 		s.SettleExt()
@@ -220,7 +225,7 @@ func (s *Sched) Settle() {
 	for {
 		select {
 		case p := <-s.arrive:
-			s.Waiting = append(s.Waiting, p)
+			s.collect(p)
 		default:
 			return
 		}
@@ -264,18 +269,70 @@ func (s *Sched) Release(match func(*Parked) bool) bool {
 
 // ReleaseRandom releases one parked goroutine chosen by the seeded generator.
 func (s *Sched) ReleaseRandom() bool {
-	if len(s.Waiting) == 0 {
+	var idx []int
+	for i, p := range s.Waiting {
+		if p != s.Hold {
+			idx = append(idx, i)
+		}
+	}
+	if len(idx) == 0 {
 		return false
 	}
-	s.ReleaseIdx(s.Rng.IntN(len(s.Waiting)))
+	s.ReleaseIdx(idx[s.Rng.IntN(len(idx))])
 	return true
+}
+
+// Others reports the number of parked goroutines apart from the held one.
+func (s *Sched) Others() int {
+	n := len(s.Waiting)
+	if s.Hold != nil {
+		n--
+	}
+	return n
+}
+
+// HoldOp arms an in-operation park for kind: whichever goroutine next enters such an operation is parked inside it
+// (possibly holding the library's mutex) and stays there, across the steps of the scenario, until Unhold.
+func (s *Sched) HoldOp(kind string) {
+	s.holdSite = "vchan.in" + kind
+	s.arm(kind)
+}
+
+func (s *Sched) collect(p *Parked) {
+	s.Waiting = append(s.Waiting, p)
+	if s.holdSite != "" && p.Site == s.holdSite && s.Hold == nil {
+		s.Hold, s.holdSite = p, ""
+		s.holdExt = s.UseExt
+		s.UseExt = true
+		s.Probes++
+	}
+}
+
+// Unhold lets the held operation finish.
+func (s *Sched) Unhold() {
+	h := s.Hold
+	if h == nil {
+		if s.holdSite != "" { // nobody entered the operation
+			s.holdSite = ""
+			s.arm("")
+		}
+		return
+	}
+	s.Hold = nil
+	s.UseExt = s.holdExt
+	for k, p := range s.Waiting {
+		if p == h {
+			s.ReleaseIdx(k)
+			return
+		}
+	}
 }
 
 // Drain releases parked goroutines in seeded-random order until none is left
 // (true quiescence), up to max releases.
 func (s *Sched) Drain(max int) error {
 	s.Settle()
-	for n := 0; len(s.Waiting) > 0; n++ {
+	for n := 0; s.Others() > 0; n++ {
 		if n >= max {
 			return fmt.Errorf("drain: still %d parked after %d releases: %v", len(s.Waiting), max, s.Sites())
 		}
